@@ -262,16 +262,27 @@ static void spline_case(Rng &r) {
   if (type == 0) sp.reset(new tools::LinSpline()); else if (type == 1) sp.reset(new tools::CubicSpline()); else sp.reset(new tools::AkimaSpline());
   bool periodic = type != 0 && r.coin(1, 4);
   if (periodic) sp->setBC(tools::Spline::splinePeriodic);
-  try { sp->Interpolate(x, y); } catch (...) { printf("C07 splder-rejected\n"); return; }
   // evaluation point: strictly inside an interval, the last interval one time in three
   int iv = r.coin(1, 3) ? n - 2 : (int)r.below(n - 1);
   double w = x(iv + 1) - x(iv);
   double rr = x(iv) + w * (0.15 + 0.7 * r.unit());
+  // one spline in three has interpolated another data set before (three times finer grid on the same range) and was last asked at the
+  // very point that is evaluated below: value and derivative must belong to the data set interpolated last
+  if (r.coin(1, 3)) {
+    long n2 = 3 * n + 1;
+    Eigen::VectorXd x2(n2), y2(n2);
+    for (long i = 0; i < n2; i++) { x2(i) = x(0) + (x(n - 1) - x(0)) * (double)i / (double)(n2 - 1); y2(i) = std::cos(3 * x2(i)); }
+    if (periodic) y2(n2 - 1) = y2(0);
+    try { sp->Interpolate(x2, y2); volatile double sink = sp->Calculate(rr); sink = sp->CalculateDerivative(rr); (void)sink; } catch (...) {}
+  }
+  try { sp->Interpolate(x, y); } catch (...) { printf("C07 splder-rejected\n"); return; }
   double h = w * 0.02;
   double scale = y.cwiseAbs().maxCoeff() + 1.0;
+  // the derivative is asked first (function arguments are evaluated in no fixed order: take the values one by one)
+  double dv = sp->CalculateDerivative(rr);
+  double vm2 = sp->Calculate(rr - 2 * h), vm1 = sp->Calculate(rr - h), vp1 = sp->Calculate(rr + h), vp2 = sp->Calculate(rr + 2 * h);
   printf("C07 splder %d %d %d %s %s %s %s %s %s %s %s\n", type, periodic ? 1 : 0, iv == n - 2 ? 1 : 0, dexact(rr).c_str(), dexact(h).c_str(), dexact(scale / w).c_str(),
-         dexact(sp->CalculateDerivative(rr)).c_str(), dexact(sp->Calculate(rr - 2 * h)).c_str(), dexact(sp->Calculate(rr - h)).c_str(),
-         dexact(sp->Calculate(rr + h)).c_str(), dexact(sp->Calculate(rr + 2 * h)).c_str());
+         dexact(dv).c_str(), dexact(vm2).c_str(), dexact(vm1).c_str(), dexact(vp1).c_str(), dexact(vp2).c_str());
 }
 
 int main(int argc, char **argv) {
